@@ -117,12 +117,26 @@ CHECKS = {
                   'returns any matching entry. Per path and per (statement, category: duplicate / unresolved / unused; conflict / repeated / unused / usage) z3 decides present => deserved and absent => not deserved, '
                   'and that a repeat points back to the first occurrence. The resolver closure is shown to record the key every node resolved to. Native sweep: 1 000+ import / declaration lists.',
              note='Trusted: std HashMap/HashSet behave as documented (modelled); Import::get_qualified_name is an atomic string per statement here (formatting: C17). Lists longer than the bound are outside.'),
+ 'C12': dict(engine='M (MIR of the Parser methods -> z3 arrays + uninterpreted functions; CFG path enumeration) + native history sweep',
+             technique='inductive invariant over the real MIR: one z3 query per path of each operation (arrays, uninterpreted functions)', design='4/C12', category='model_checking',
+             text='Every MIR path of add_content / remove_content / validate / add_file becomes an update of a z3 array S: Id -> Option<Result>. z3 shows for each path that the invariant '
+                  '"S is the image of the surviving-contents map M under R(id, content)" is preserved (R = the term add_content stores, which must mention only id and content), that validate '
+                  'returns a term over S alone and leaves S unchanged, and that add_file stores exactly what add_content(path, text) stores and nothing on an I/O error. The invariant holds for '
+                  'the empty parser, hence after every history and for every fresh parser built from M: unbounded histories, any number of ids. CFG facts (single insert/remove, key map recomputed, '
+                  'no global or interior-mutable state) by path enumeration. Native confirmation: all histories of length <= 2 (3) over 21 operations, a stale-cache scenario, seeded random histories.',
+             note='Trusted: std HashMap insert/remove/get/contains_key/entry/clone = array store/select; parsing is an uninterpreted function of (id, content); File::open / read_to_string are uninterpreted. '
+                  'Hash iteration order is not in this model (see C11).'),
+ 'C13': dict(engine='M (information flow on the MIR CFG) + T (self-composition of resolve_type / check_imports, z3 strings) + native perturbation sweep',
+             technique='2-safety by self-composition: symbolic execution of the real MIR twice, z3 on every pair of paths with different outcomes', design='4/C13', category='model_checking',
+             text='Frame: the per-file closure of validate captures only a shared reference to the key -> kind map; the map flows only into resolve_types -> resolve_type and check_imports, where it is '
+                  'only looked up (get / contains_key); it is built from (get_key, get_kind) of the stored trees; get_kind is a constant per variant; no global state. Non-interference: resolve_type and '
+                  'check_imports are executed twice on the same file-side inputs (unbounded strings) and two different key maps (<= 2 entries each); for every pair of paths with different outcomes z3 shows '
+                  'that the two maps must disagree on an import of the file. Native: 13 result-preserving perturbations of a 4-file project and 4 negative controls.',
+             note='Outside: a file with two imports matching the same written name and two files registering one key with different kinds (hash-order choices, decided under C11); Aidl::get_key (C17).'),
 }
 
 NA = {
  'C02': 'tree content is produced by the regex lexer, the generated __reduce and string-copying actions; none can be executed symbolically with what is installed (concrete 7-token parse under CBMC > 20 min; regex compilation not encodable)',
- 'C12': 'every state change goes through add_content (regex lexer construction, HashMap<ID,_>) and add_file (file I/O); not encodable',
- 'C13': 'needs validate over >=2 files: HashMap iteration, collect and the format!-built key map; not encodable',
 }
 PENDING = {}
 for p in ['C01','C03','C04','C05','C06','C07','C08','C09','C10','C11','C14','C15','C16','C17','C18','C19']:
@@ -139,9 +153,9 @@ def main():
                'baseline_off_cmd': 'cd /repo && cargo test --workspace --no-fail-fast --offline',
                'source_commits': list(reversed(hooks)), 'add_only': True},
      'engines': [
-       {'name': 'M', 'path': 'lib/mir.py', 'serves_properties': ['C01', 'C03', 'C04', 'C07', 'C10', 'C11', 'C17', 'C19', 'C20'], 'kind_free_text': 'nightly MIR of the current tree -> path-enumerating symbolic interpreter -> z3 (strings/integers)'},
+       {'name': 'M', 'path': 'lib/mir.py lib/histcheck.py lib/framecheck.py', 'serves_properties': ['C01', 'C03', 'C04', 'C07', 'C10', 'C11', 'C12', 'C13', 'C17', 'C19', 'C20'], 'kind_free_text': 'nightly MIR of the current tree -> path-enumerating symbolic interpreter -> z3 (strings/integers)'},
        {'name': 'P', 'path': 'lib/tables.py lib/lrdriver.py lib/pengine.py lib/refgrammar.py', 'serves_properties': ['C03', 'C14'], 'kind_free_text': 'LALR tables extracted from the generated parser of the current tree; model of the lalrpop_util driver incl. error recovery; path-forking symbolic execution; z3 CYK of a reference grammar'},
-       {'name': 'T', 'path': 'lib/tmir.py lib/travcheck.py', 'serves_properties': ['C05', 'C06', 'C08', 'C09', 'C15', 'C16'], 'kind_free_text': 'event-trace symbolic executor for the traversal MIR (closures, slice iterators, ControlFlow) with inductive summaries for recursive walkers'},
+       {'name': 'T', 'path': 'lib/tmir.py lib/travcheck.py lib/resolvecheck.py lib/nonint.py', 'serves_properties': ['C05', 'C06', 'C08', 'C09', 'C13', 'C15', 'C16'], 'kind_free_text': 'event-trace symbolic executor for the traversal MIR (closures, slice iterators, ControlFlow) with inductive summaries for recursive walkers'},
        {'name': 'K', 'path': 'kani/ lib/kani.py lib/ksupport.py', 'serves_properties': ['C01', 'C04', 'C05', 'C07', 'C08', 'C10', 'C16', 'C18'], 'kind_free_text': 'Kani 0.68 / CBMC proof harnesses over the real crate (path dependency, hooks enabled)'},
        {'name': 'A', 'path': 'lib/acteval.py', 'serves_properties': ['C04', 'C01'], 'kind_free_text': 'symbolic evaluator of the machine-generated __actionN wrappers: Range::new arguments as integer terms over token spans'},
        {'name': 'L', 'path': 'lib/lexl.py', 'serves_properties': ['C03'], 'kind_free_text': 'generated lexer pattern table -> z3 regular expressions'},
